@@ -70,6 +70,28 @@ ConcG(g, img) ==
                        [] g.t = "PG" -> [i \in DOMAIN g.body |-> [j \in DOMAIN g.body[i] |-> ConcC(g.body[i][j], img)]]
                        [] OTHER -> [i \in DOMAIN g.body |-> ConcG(g.body[i], img)]]
 
+\* the same encoder on a CONCRETE geometry (ordinates are their 8 bytes, most significant first; an empty point has
+\* body <<>>): used to recognise inputs that are the standard encoding of some geometry
+F64C(o, order) == IF order = "XDR" THEN [i \in 1..8 |-> o[i]] ELSE [i \in 1..8 |-> o[9 - i]]
+Raw(bs) == [i \in DOMAIN bs |-> bs[i][2]]
+ECoordC(c, order) == Cat([i \in DOMAIN c |-> F64C(c[i], order)])
+ECoordsC(cs, order) == Raw(U32(Len(cs), order)) \o Cat([i \in DOMAIN cs |-> ECoordC(cs[i], order)])
+ERingsC(rs, order) == Raw(U32(Len(rs), order)) \o Cat([i \in DOMAIN rs |-> ECoordsC(rs[i], order)])
+RECURSIVE EncC(_, _, _, _)
+EncC(g, order, flavor, top) ==
+  LET hasSrid == flavor = "ewkb" /\ top /\ g.srid # <<>>
+      head == Raw(OrderByte(order)
+              \o (IF flavor = "ewkb" THEN EwkbType(g.t, g.l, hasSrid, order) ELSE IsoType(g.t, g.l, order))
+              \o (IF hasSrid THEN Wire4(g.srid, order) ELSE <<>>))
+      kids == [i \in DOMAIN g.body |-> EncC(g.body[i], order, flavor, FALSE)] IN
+  CASE g.t = "PT" -> IF g.body = <<>>
+                     THEN (IF flavor = "wkb" THEN <<>> ELSE head \o Cat([i \in 1..Stride(g.l) |-> F64C(NaN8, order)]))
+                     ELSE head \o ECoordC(g.body, order)
+    [] g.t = "LS" -> head \o ECoordsC(g.body, order)
+    [] g.t = "PG" -> head \o ERingsC(g.body, order)
+    [] OTHER      -> IF \E i \in DOMAIN kids : kids[i] = <<>> THEN <<>>
+                     ELSE head \o Raw(U32(Len(g.body), order)) \o Cat(kids)
+
 \* what decoding the encoding of g must return (format carve-outs): the SRID lives on the top-level geometry
 \* only (children are written without it); SRID 0 = no SRID; plain WKB has no SRID at all
 \* the layout a collection WITHOUT a fixed layout shows after decoding: the join of its members' layouts; with no
